@@ -20,6 +20,9 @@ def unit_atoms(obj):
 def run(chk, repo, tier):
     from .common import no_hidden_state
     no_hidden_state(chk, repo, 'C13')
+    chk.clause('C13-o', 'arithmetic, sampling, integrating and binning leave the operand spectra untouched', 8)
+    from .common import operands_untouched
+    operands_untouched(chk, repo, 'C13-o', ['radiometry.Spectrum._ufunc', 'radiometry.Spectrum.add', 'radiometry.Spectrum.subtract', 'radiometry.Spectrum.multiply', 'radiometry.Spectrum.divide', 'radiometry.Spectrum.power', 'radiometry._interp_common', 'radiometry.Spectrum.sample', 'radiometry.Spectrum.integrate', 'radiometry.Spectrum.bin'], allow=[])
     chk.clause('C13-a', 'operator table: dunder -> named method -> numpy ufunc', 12)
     chk.clause('C13-b', 'operands are not modified by arithmetic, sampling, binning or integration', 6)
     chk.clause('C13-c', 'the unit of each operand is consulted before their wavelength grids are combined', 2)
